@@ -232,11 +232,17 @@ def check(ctx):
             hs = facts.get(("truthy", ("attr", SELF, "onDisconnection")))
             if hs is None:
                 hs = facts.get(("nonnull", ("attr", SELF, "onDisconnection")))
-            exp = 1 if hs else 0
+            # the only thing that may suppress the notification is the handler not being set: a path that schedules nothing must
+            # have tested the handler and found it unset; every other path schedules it exactly once with the reason
+            exp = 0 if hs is False else 1
             okn = len(notif) == exp and all(tuple(n.a["args"]) == (("param", "reason"),) for n in notif)
             ctx.ob("K3", "%s connectionLost schedules onDisconnection(reason) %s" % (cq, "once" if exp else "never (no handler)"), okn,
-                   where=where(notif[0]) if notif else w, function=fnc.qual, construct="%s/loss/notify/%d" % (cls.qual, exp),
-                   msg="%d notifications scheduled with %s" % (len(notif), [[show(x) for x in n.a["args"]] for n in notif]))
+                   where=where(notif[0]) if notif else w, function=fnc.qual,
+                   construct="%s/loss/notify/%s" % (cls.qual, "suppressed" if (hs is None and not notif) else str(exp)),
+                   msg="%d notifications scheduled with %s%s" % (len(notif), [[show(x) for x in n.a["args"]] for n in notif],
+                                                                 "" if hs is not None or notif else
+                                                                 ": the handler is skipped under a condition other than its being unset (%s)" % (
+                                                                     [repr(c) for c in tr.path.conds][-2:])))
             ctx.ob("K3", "%s connectionLost: clean-up precedes IDLE and the notification" % cq, not other, where=where(other[0]) if other else w,
                    function=fnc.qual, construct="%s/loss/order" % cls.qual, nontrivial=False,
                    msg="effect %s after the protocol was declared IDLE" % (other[0].brief() if other else ""))
